@@ -2,6 +2,7 @@
 adapter, oracle.  Ops 1500-1517 (family 15, Run/DispFactory.v).  The eight PDU kinds are driven with
 the argument formats, field marshalling and independent layout transcriptions of their own
 families (harness/props/c07.py, c06a.py, c06b.py, c06c.py)."""
+import gc
 import itertools
 import warnings
 from harness import core
@@ -34,7 +35,14 @@ ASSUMPTIONS = sorted(set(h5.ASSUMPTIONS + [
     "the deprecated PduHolder.base property only forwards to PduHolder.pdu (its DeprecationWarning is not observed)",
 ]))
 TRUSTED = ["crcmod 1.7 (C extension) as CRC-16/CCITT-FALSE"]
-EXPLORED_ONLY = []
+EXPLORED_ONLY = [
+    "op 1599 / stream explore_holder_object_identity (outside the model: object identity / the allocator): one holder (or a "
+    "fresh one per PDU) takes several hundred PDUs in a row, each of ANOTHER kind than the one before, built directly by "
+    "the constructors from one existing PduConfig right after every reference to the previous PDU was dropped and the "
+    "collector ran (CPython hands the address of the released PDU to the next one): pdu_type, is_file_directive, "
+    "pdu_directive_type, packet_len, pack() and all eight typed accessors answer for the PDU that is stored NOW (the "
+    "accessor of its kind returns that very object, the seven others raise TypeError)",
+]
 ORACLE_LIMIT = {"quick": 30000, "thorough": 100000}
 WIDTHS = (1, 2, 4, 8)
 OP_RANGE = (1500, 1599)
@@ -118,6 +126,13 @@ def _apply_holder_op(h, l):
             h.base = PduFactory.from_raw(bytes(data))
         elif style == 3:
             h.pdu = PduFactory.from_raw_to_holder(bytes(data)).pdu
+        elif style == 4:
+            # the PDU held so far is released BEFORE the next one is created (its address is free for the new one);
+            # octets the factory refuses leave the holder as it was, so they are tried first
+            PduFactory.from_raw(bytes(data))
+            h.pdu = None
+            gc.collect(0)
+            h.pdu = PduFactory.from_raw(bytes(data))
         else:
             h.pdu = PduFactory.from_raw(bytes(data))
         return []
@@ -137,6 +152,94 @@ def _apply_holder_op(h, l):
 
 
 core.NO_THREAD_OPS.update(range(1500, 1530))   # catch_warnings below swaps the process-wide filter list
+core.NO_THREAD_OPS.add(1599)
+
+
+# ------------------------------------------------------------------ exploration outside the model (op 1599)
+def _explore_identity(a):
+    from spacepackets.cfdp.defs import ConditionCode, DeliveryCode, FileStatus, ChecksumType
+    from spacepackets.cfdp.pdu.file_directive import DirectiveType
+    from spacepackets.cfdp.pdu.ack import TransactionStatus
+    from spacepackets.cfdp.pdu.prompt import ResponseRequired
+    from spacepackets.cfdp.pdu.finished import FinishedParams
+    from spacepackets.cfdp.pdu.metadata import MetadataParams
+    from spacepackets.cfdp.pdu.file_data import FileDataParams
+    rounds = a[0][1]
+    conf = h5._conf(a[1], a[2])
+    vals = a[3]
+    large = a[2][1] == 1
+    fdp = FileDataParams(file_data=bytes(a[4][:40]), offset=7)
+    finp = FinishedParams(condition_code=ConditionCode.NO_ERROR, delivery_code=DeliveryCode.DATA_COMPLETE, file_status=FileStatus.FILE_RETAINED)
+    mdp = MetadataParams(True, ChecksumType.MODULAR, 12, "a.txt", "b.txt")
+    cs = bytes([1, 2, 3, 4])
+    build = [lambda: FileDataPdu(conf, fdp), lambda: EofPdu(conf, cs, 12), lambda: FinishedPdu(conf, finp),
+             lambda: AckPdu(conf, DirectiveType.EOF_PDU, ConditionCode.NO_ERROR, TransactionStatus.ACTIVE),
+             lambda: MetadataPdu(conf, mdp), lambda: NakPdu(conf, 0, 10), lambda: PromptPdu(conf, ResponseRequired.KEEP_ALIVE),
+             lambda: KeepAlivePdu(conf, 77)]
+    raws = [bytes(b().pack()) for b in build]      # the packed form of each kind, for the factory
+    junk = raws[7]
+    h = PduHolder(None)
+    pdu = got = None
+    prev = -1
+    gc.collect()
+    for r in range(rounds):
+        x = vals[r % len(vals)] + r // len(vals)
+        k = x % 8
+        if k == prev:
+            k = (k + 1 + (x >> 8) % 7) % 8
+        style = (x >> 3) % 4
+        # every reference to the previous PDU goes away ...
+        if style == 3:
+            h = None
+        else:
+            h.pdu = None
+        pdu = got = None
+        if r % 64 == 0:
+            gc.collect()
+        else:
+            gc.collect(0)
+        # ... then the next PDU, of another kind, is created and stored
+        if (x >> 10) & 3 == 3:
+            for _ in range((x >> 12) % 4):            # other traffic is decoded and dropped in between
+                PduFactory.from_raw(junk)
+            pdu = PduFactory.from_raw(raws[k])
+        else:
+            pdu = build[k]()
+        if style == 3:
+            h = PduHolder(pdu)
+        elif style == 2:
+            with warnings.catch_warnings():
+                warnings.simplefilter("ignore")
+                h.base = pdu
+        else:
+            h.pdu = pdu
+        order = list(range(8))
+        if x & 128:
+            order.reverse()
+        if style == 1:
+            order = order[k:] + order[:k]
+        if (x >> 5) & 1:
+            if int(h.pdu_type) != (1 if k == 0 else 0) or bool(h.is_file_directive) != (k != 0):
+                return [[0, 1, r, k]]
+            dt = h.pdu_directive_type
+            if (dt is None) != (k == 0) or (dt is not None and int(dt) != CODE[k]):
+                return [[0, 2, r, k, -1 if dt is None else int(dt)]]
+        for j in order:
+            try:
+                got = getattr(h, TO[j])()
+            except TypeError:
+                if j == k:
+                    return [[0, 3, r, k, j]]
+                continue
+            if j != k or got is not pdu:
+                return [[0, 4, r, k, j, _kind(got)]]
+        dt = h.pdu_directive_type
+        if (dt is None) != (k == 0) or (dt is not None and int(dt) != CODE[k]):
+            return [[0, 2, r, k, -1 if dt is None else int(dt)]]
+        if h.packet_len != pdu.packet_len or h.pack() != pdu.pack():
+            return [[0, 5, r, k]]
+        prev = k
+    return [[1]]
 
 
 def impl(op, a):
@@ -153,6 +256,17 @@ def _strict(f):
 
 
 def _impl(op, a):
+    if op == 1599:
+        # the live-object probe (harness/liveprobe.py) keeps every object created under its profiler alive and
+        # snapshots all of them again and again: here that would both defeat the purpose (no address is ever handed
+        # out again) and cost minutes for the thousands of short-lived PDUs -- the exploration runs unobserved
+        import sys
+        prof = sys.getprofile()
+        sys.setprofile(None)
+        try:
+            return _explore_identity(a)
+        finally:
+            sys.setprofile(prof)
     if op == 1500:
         return _opt_fields(PduFactory.from_raw(bytes(a[0])))
     if op == 1501:
@@ -343,7 +457,7 @@ def streams(tier, rng):
         for _ in range(rng.randrange(1, 11)):
             c = rng.choice([1, 1, 1, 2, 3, 4, 5, 6, 6, 7])
             if c == 1 and used and rng.random() < 0.35:
-                ops.append([1, rng.randrange(4)] + rng.choice(used))      # the same octets arrive again
+                ops.append([1, rng.randrange(5)] + rng.choice(used))      # the same octets arrive again
             elif c == 1:
                 k = rng.choice([0, 0, rng.randrange(8)])
                 b = _valid_packed(rng, k)[1]
@@ -352,7 +466,7 @@ def streams(tier, rng):
                 if r < 0.1: b = b[:rng.randrange(len(b))]
                 elif r < 0.15: b = list(b); b[0] ^= 0x40
                 elif r < 0.2 and k: hl = h5._declared(b); b = list(b); b[hl] = 10
-                ops.append([1, rng.randrange(4)] + b)
+                ops.append([1, rng.randrange(5)] + b)
             elif c == 6:
                 ops.append([6, rng.randrange(8)])
             elif c == 7:
@@ -363,6 +477,37 @@ def streams(tier, rng):
                 ops.append(ops[-1])
         cases.append((1521, ops + [[5], [5]]))
     yield "holder_histories", "exact", cases
+    # 10b. outside the model (op 1599, see EXPLORED_ONLY): holders re-used for PDUs that are created at the address of the
+    #      PDU released just before
+    cases = []
+    for i in range(40 if big else 10):
+        ids, flags = h7._rand_conf(rng)
+        cases.append((1599, [[0, 600 if big else 240], ids, flags, [rng.randrange(2 ** 16) for _ in range(97)], h7._special_data(rng, 24)]))
+    yield "explore_holder_object_identity", "exact", cases
+    # 10c. PDUs whose (correct) CRC-16 trailer is 0x0000 / 0xFFFF / has a zero octet / a single bit -- a derived quantity no
+    #      generator aims at and random packets hit once in 65536: found by steering the transaction sequence number
+    #      (c05.steer_crc), for every kind and width pair (quick: 6 pairs), through the factory, the holder, the typed
+    #      accessors, the inspectors, the class's own decoder, two-in-a-row and a holder history
+    cases = []
+    pairs = list(itertools.product(WIDTHS, WIDTHS)) if big else [(1, 1), (1, 2), (2, 1), (2, 4), (4, 8), (8, 8)]
+    for k in range(8):
+        for sl, ql in pairs:
+            for target in h5.crc_targets(rng):
+                a, b = _valid_packed(rng, k, sl=sl, ql=ql, crc=1)
+                b2 = h5.steer_crc(b, target)
+                a2 = [list(x) for x in a]; a2[0] = h5.ids_of(b2)
+                if LAY[k](a2) != b2:
+                    raise RuntimeError("steered PDU is not the layout of its arguments")
+                cases.append((1510 + k, a2)); cases.append((1500, [b2])); cases.append((1505, [b2])); cases.append((1506, [b2]))
+                cases.append((1504, [b2, [k]])); cases.append((1504, [b2, [rng.randrange(8)]]))
+                cases.append((1507, [b2, [k], [k]])); cases.append((1508, [b2, [k]]))
+                cases.append((1500, [b2 + [rng.randrange(256) for _ in range(rng.choice([1, 2, 9]))]]))
+                other = _valid_packed(rng, rng.randrange(8))[1]
+                cases.append((1520, [b2, other, [rng.randrange(2)]])); cases.append((1520, [other, b2, [rng.randrange(2)]]))
+                cases.append((1521, [[1, rng.randrange(5)] + b2, [3], [4], [5], [6, k], [1, rng.randrange(5)] + other, [1, rng.randrange(5)] + b2, [5], [5]]))
+                q = list(b2); q[-1] ^= 1 << rng.randrange(8)          # ... and the same PDU with a wrong trailer
+                cases.append((1500, [q]))
+    yield "crc_trailer_special_values", "exact", cases
     # 11. sizes: File Data PDUs with every file-data length near the multiples of 256 up to 1100 (thorough: every
     #     length 0..2100), around 4 KiB and at the limit, packed and decoded through the factory; every kind followed by
     #     0..1100 further octets in the buffer
@@ -519,6 +664,14 @@ def oracle(case, ires, sres):
     op, a = case
     err = ires[0][0] == 1
     code = ires[0][1] if err else None
+    if op == 1599:
+        if ires == [[0], [1]]:
+            return None
+        d = ires[1] if len(ires) > 1 else ires[0]
+        what = {1: "pdu_type / is_file_directive", 2: "pdu_directive_type", 3: "the typed accessor of the stored kind (it raised TypeError)",
+                4: "a typed accessor of another kind (it returned an object)", 5: "packet_len / pack()"}.get(d[1] if len(d) > 1 else -1, "the adapter ended with %s" % (ires[:2],))
+        return ("C12/PduHolder.accessors/object-identity-reuse", "a holder given a %s built right after the previous PDU (another kind) was "
+                "released: wrong answer of %s (round %s, detail %s)" % (NAMES[d[3]] if len(d) > 3 and 0 <= d[3] < 8 else "PDU", what, d[2] if len(d) > 2 else "?", d[3:]))
     if op == 1520:
         a1, a2 = _alone(a[0]), _alone(a[1])
         if err:
